@@ -227,6 +227,13 @@ def minimize(
     :func:`scipy.optimize.minimize`.
     """
 
+    if not jnp.issubdtype(x0.dtype, jnp.inexact):
+        # an integer (or boolean) start would be kept as the dtype of the optimization
+        # variable: every trial point would be truncated before func is evaluated
+        raise TypeError(
+            f"The starting point x0 must have a floating point or complex dtype, got {x0.dtype}."
+        )
+
     if snp.util.is_complex_dtype(x0.dtype):
         # scipy minimize function requires real-valued arrays, so
         # we split x0 into a vector with real/imaginary parts stacked
